@@ -18,6 +18,7 @@ import itertools
 import json
 import os
 import random
+import subprocess
 import types
 import typing as T
 
@@ -89,6 +90,7 @@ BAD_RESULTS = (reftap.FAIL, reftap.XPASS)
 SIG_INTLIMIT = 'raises:ValueError/int-max-str-digits'
 EXCL_TOLERATED = 'error-iff not evaluated: only fixture-pinned classes present (version < 13, plan trailer)'
 EXCL_BAILOUT = 'error-iff not evaluated after Bail out!'
+EXCL_BIGBAIL = 'no-Error-before-bail-out not evaluated: an over-long number (more digits than int() converts) precedes the Bail out!'
 EXCL_BIGNUM = 'reported subtest number not compared: written with more digits than int() converts (everything else is compared)'
 
 
@@ -198,7 +200,7 @@ def compare(lines: T.Sequence[str], events: list, R: reftap.Interp) -> T.Tuple[T
     n_err = sum(1 for k in kinds if k == 'Error')
     if R.bailout is not None:
         before = sum(1 for k in kinds[:bail_at] if k == 'Error')
-        if before and not R.classes and not R.tolerated and not R.soft:
+        if before and not R.classes and not R.tolerated and not R.soft and not R.big:
             return Failure('spurious-error', case, f'{_show(lines)}: Error event(s) before the bail-out although nothing is wrong up to there: {events}'), 'bailout'
         return None, 'bailout'
     if R.soft:
@@ -385,6 +387,22 @@ def selftest(ctx: Ctx) -> None:
         if got != tests or R.named != sorted(classes) or (R.bailout is not None) != bail or R.unspecified or R.tolerated:
             raise HarnessError(f'reference self-test failed on {stream!r}: tests {got} classes {R.named} bailout {R.bailout} '
                                f'unspecified {R.unspecified} tolerated {R.tolerated}')
+    # numbers of any length: exact value in the reference's own counting, reported value left open beyond the int() limit
+    lim = reftap.int_str_limit()
+    for stream, n_tests, loose, classes, big in (
+            (['ok ' + BIG], 1, {0}, [reftap.C_MISSING], True),
+            (['ok ' + BIG, 'ok', 'ok 2', 'ok'], 4, {0, 1}, [reftap.C_MISSING], True),
+            (['1..' + BIG, 'ok 1'], 1, set(), [reftap.C_MISSING, reftap.C_MISMATCH], True),
+            (['1..2', 'ok ' + BIG, 'ok 1'], 2, {0}, [reftap.C_BEYOND, reftap.C_MISSING], True),
+            (['ok ' + MID], 1, set(), [reftap.C_MISSING], False),
+            (['ok 1', 'TAP version ' + BIG], 1, set(), [reftap.C_VERSION], False)):
+        R = reftap.interpret(with_eol(stream, 0))
+        limited = bool(lim) and lim < len(BIG)
+        if len(R.tests) != n_tests or R.loose != (loose if limited else set()) or R.named != sorted(classes) or R.unspecified or R.big != (big and limited):
+            raise HarnessError(f'reference self-test failed on a long-number stream {[x[:12] for x in stream]}: {len(R.tests)} tests, loose {R.loose}, '
+                               f'classes {R.named}, unspecified {R.unspecified}, big {R.big}')
+    if reftap.to_int(MID) != int(MID) or reftap.to_int(BIG) % 10 ** 12 != 111111111111 or reftap.to_int(BIG).bit_length() != 16607:
+        raise HarnessError('reftap.to_int is wrong')
     for text, why in (('okay', 'glued'), ('ok 1 2', 'digit'), ('1..3x', 'after plan'), ('ok 1 \\# x', 'escaped'), ('ok\x0c1', 'white space')):
         ln = reftap.classify(text)
         if ln.kind != 'unspecified' or why not in ln.why:
@@ -457,6 +475,8 @@ def _enum_shard(shard: T.Tuple[T.List[str], int, int, int, int], ev: Evidence, f
                 excl[EXCL_BAILOUT] += 1
             if R.loose:
                 excl[EXCL_BIGNUM] += 1
+            if R.big and tag == 'bailout':
+                excl[EXCL_BIGBAIL] += 1
             if len(R.classes) == 1 and tag.startswith('err:'):
                 hist['single-class:' + tag[4:]] += 1
             if tag.startswith('err:') and dupgap_cancel(R):
@@ -633,6 +653,8 @@ def _tally(ev: Evidence, case: T.Any, tag: str, R: T.Optional[reftap.Interp], pr
         ev.exclude(EXCL_BAILOUT)
     if R.loose:
         ev.exclude(EXCL_BIGNUM)
+    if R.big and tag == 'bailout':
+        ev.exclude(EXCL_BIGBAIL)
     if isinstance(case, dict) and any(len(x) > LONG_LINE for x in case['lines']):
         ev.event(f'{prefix}:has-over-long-number')
     if len(R.classes) == 1 and tag.startswith('err:'):
@@ -769,14 +791,25 @@ def e2e_run(root: str, cases: T.List[T.Tuple[T.List[str], int]]) -> T.Tuple[T.Di
     r = mesondrv.run_sub(['setup', '--backend=none', 'b'], cwd=root)
     if r.rc != 0:
         raise HarnessError(f'meson setup of the TAP test project failed: {r!r}')
-    rt = mesondrv.run_sub(['test', '-C', 'b', '--no-rebuild', '--num-processes', '16'], cwd=root, timeout=600)
+    try:
+        rt = mesondrv.run_sub(['test', '-C', 'b', '--no-rebuild', '--num-processes', '16'], cwd=root,
+                              timeout=180 if len(cases) <= 100 else 600)
+    except subprocess.TimeoutExpired as e:
+        # a parser exception inside `meson test` can leave the run waiting for ever (seen with the int() limit defect
+        # re-introduced): that is a finding about the tree (reported by e2e_check), not a problem of the harness
+        rt = mesondrv.Result(-9, '', f'`meson test` did not finish within {e.timeout} s (killed)')
     got: T.Dict[int, str] = {}
     log = os.path.join(root, 'b', 'meson-logs', 'testlog.json')
     if os.path.exists(log):
         with open(log, encoding='utf-8') as fh:
             for ln in fh:
                 if ln.strip():
-                    d = json.loads(ln)
+                    try:
+                        d = json.loads(ln)
+                    except ValueError:
+                        if rt.rc == -9:      # killed while writing the log
+                            continue
+                        raise
                     got[int(d['name'].split(':t')[-1])] = d['result']
     return got, rt
 
@@ -785,8 +818,11 @@ def e2e_check(root: str, cases: T.List[T.Tuple[T.List[str], int]], ev: Evidence)
     fails: T.List[Failure] = []
     got, rt = e2e_run(root, cases)
     if rt.unhandled or len(got) != len(cases):
-        fails.append(Failure('e2e/meson-test-crashed', {'e2e': True, 'cases': [{'lines': l, 'rc': rc} for l, rc in cases][:50]},
-                             f'`meson test` did not report all {len(cases)} TAP tests (got {len(got)}): {rt!r}'))
+        # name the streams `meson test` never reported: one of them is what made it crash / hang
+        lost = [{'lines': l, 'rc': rc} for i, (l, rc) in enumerate(cases) if i not in got]
+        fails.append(Failure('e2e/meson-test-crashed', {'e2e': True, 'cases': (lost or [{'lines': l, 'rc': rc} for l, rc in cases])[:50]},
+                             f'`meson test` did not report all {len(cases)} TAP tests (got {len(got)}): {rt!r:.1500}; '
+                             f'first unreported stream: {_show(lost[0]["lines"]) if lost else None}'))
         return fails
     any_bad = False
     for i, (lines, rc) in enumerate(cases):
